@@ -63,4 +63,11 @@ theorem chiSquare_eq_gen [Trunc K] (fuel : Nat) (p : K) (n : Int) :
     ← normal_eq_gen]
   split_ifs <;> rfl
 
+/-- `KSprob` (round 13): `eps = 1e-20`, the two early returns, the split at 1.18, `pi2`, `xx8`, the factor `sqrt(2*M_PI)/x`,
+    `x2 = -2*x*x`, the start values `k = 1`, `s = -2`, `sum = 1`; both loop bodies are pinned text in the translator -/
+theorem ksProb_eq_gen (x : K) : ksProb x = Gen.Statan.KSprob x := by
+  unfold ksProb Gen.Statan.KSprob
+  simp only [Id.run, lit]
+  split_ifs <;> rfl
+
 end Gama.Statan
